@@ -613,7 +613,6 @@ Proof.
     destruct S as [[S [Q|[Q _]]]|(Q & _)]; [|rewrite RE in Q; destruct Q|rewrite RE in Q; destruct Q]. auto.
   - left. rewrite (tail_plain c PB). pose proof (f_cret w FI c Hc' PB). lia.
 Qed.
-Print Assumptions forward_tail_crosses_a_solid_chunk.
 (* ================================================================================================================== *)
 (* Part 3: the rendered code in ascending order                                                                        *)
 (* ================================================================================================================== *)
@@ -799,7 +798,6 @@ Theorem no_goto_to_next_label_unoptimized mp tl name glob body w code :
   emit_script mp tl name glob false body = Ok code ->
   forall pre l mid g post, code = pre ++ IGoto l :: mid ++ ILabel l g :: post -> Forall skip mid -> False.
 Proof. intros HW HS HSC SZ. exact (no_goto_to_next_label_unoptimized_sec mp tl name glob body w HW HS HSC SZ code). Qed.
-Print Assumptions no_goto_to_next_label_unoptimized.
 
 (* THEOREM (c2), either setting *)
 Theorem no_goto_to_next_label mp tl name glob body w opt code :
@@ -812,7 +810,6 @@ Proof.
   - exact (no_goto_to_a_later_label_optimized mp tl name glob body w code HW HS SZ H pre l mid g post E).
   - exact (no_goto_to_next_label_unoptimized mp tl name glob body w code HW HS HSC SZ H pre l mid g post E SK).
 Qed.
-Print Assumptions no_goto_to_next_label.
 (* ================================================================================================================== *)
 (* Part 4: the label lines of a script; accepted programs                                                              *)
 (* ================================================================================================================== *)
@@ -844,7 +841,6 @@ Proof.
   apply in_map_iff in IN. destruct IN as (i & Q & Hi). inversion Q; subst. destruct (GT i Hi) as [R T].
   exists i. split; [lia|]. split; [reflexivity|]. split; [reflexivity|exact T].
 Qed.
-Print Assumptions script_label_lines.
 
 (* ---------- every accepted program ---------- *)
 From Pory Require Import Parser Format ProgWf ProgSrc.
@@ -915,9 +911,6 @@ Proof.
   - exact (script_label_lines_from_source b mp _ n g opt seg HB RZ).
 Qed.
 End FROM_SOURCE.
-Print Assumptions no_goto_to_next_label_from_source.
-Print Assumptions script_label_lines_from_source.
-Print Assumptions program_segments_ok.
 
 (* ---------- the data pieces of the layout contain no goto line ---------- *)
 Lemma nog_flat_map {A} (f : A -> list instr) l : (forall x, nog (f x)) -> nog (flat_map f l).
@@ -996,7 +989,6 @@ Proof.
     apply in_app_or in I. destruct I as [I|[I|[]]]; [exact (Q is I)|]. inversion I; subst. apply nog_emit_texts. }
   unfold nog in N. rewrite forallb_forall in N. specialize (N _ J). discriminate N.
 Qed.
-Print Assumptions data_pieces_have_no_goto.
 
 (* ---------- the flat statement for the whole output, under distinct label names ---------- *)
 Section TARGETDEF.
@@ -1103,7 +1095,6 @@ Proof.
       rewrite E2, lnames_app. apply in_or_app. right. left. reflexivity.
 Qed.
 End FLAT.
-Print Assumptions program_no_goto_to_next_label.
 
 (* ---------- (d) for the final code of a program ---------- *)
 Lemma Forall2_in_combine {A B} (R : A -> B -> Prop) l l' : Forall2 R l l' -> forall x y, In (x, y) (combine l l') -> R x y.
@@ -1143,7 +1134,6 @@ Proof.
   exact (targets_concat segs seg n' (in_combine_r _ _ _ _ I) Q4).
 Qed.
 End PROGRAM_LABELS.
-Print Assumptions program_label_lines.
 (* ================================================================================================================== *)
 (* Part 5: the hypotheses are satisfiable; what the statements do not say                                              *)
 (* ================================================================================================================== *)
